@@ -5,6 +5,8 @@ import math
 import numpy as np
 from hypothesis import strategies as st
 
+from ..core import sampled_from  # noqa: E402
+
 from .. import build, meshgen, refmodel, writers
 from .. import sphere as S
 from ..core import Failure
@@ -41,11 +43,11 @@ ELEMENTS = ["nodes", "face centers", "edge centers"]
 @st.composite
 def _case(draw, tier):
     big = tier != "quick"
-    src = draw(st.sampled_from(["topology", "topology", "mpas"]))
+    src = draw(sampled_from(["topology", "topology", "mpas"]))
     if src == "mpas":
         mesh = draw(meshgen.voronoi_mesh(8, 20 if big else 12, renumber=False))
     else:
-        fam = draw(st.sampled_from(["hull", "hull", "latlon", "solid"]))
+        fam = draw(sampled_from(["hull", "hull", "latlon", "solid"]))
         if fam == "hull":
             mesh = draw(meshgen.hull_mesh(6, 26 if big else 14, partial=True))
         elif fam == "latlon":
@@ -53,7 +55,7 @@ def _case(draw, tier):
         else:
             mesh = draw(meshgen.solid_mesh_st())
         mesh.pop("centers", None)
-    sel = draw(st.sampled_from(SELECTIONS))
+    sel = draw(sampled_from(SELECTIONS))
     planted_box = None
     am_nodes = [p for p in mesh["nodes"] if abs(abs(p[0]) - 180.0) < 1e-12 and abs(p[1]) < 85.0]
     cand = [i for i, p in enumerate(mesh["nodes"]) if abs(p[1]) < 80.0]
@@ -62,7 +64,7 @@ def _case(draw, tier):
         # (stored as +180 or -180)
         k = cand[draw(st.integers(0, len(cand) - 1))]
         delta = 180.0 - mesh["nodes"][k][0]
-        edge = draw(st.sampled_from([180.0, 180.0, -180.0]))
+        edge = draw(sampled_from([180.0, 180.0, -180.0]))
         nodes = [[(((p[0] + delta) + 180.0) % 360.0) - 180.0, p[1]] for p in mesh["nodes"]]
         nodes[k][0] = edge
         mesh = dict(mesh, nodes=nodes)
@@ -86,32 +88,32 @@ def _case(draw, tier):
     case = {
         "mesh": mesh,
         "source": src,
-        "materialise": sorted(draw(st.sets(st.sampled_from(MATERIALISE), max_size=4))),
+        "materialise": sorted(draw(st.sets(sampled_from(MATERIALISE), max_size=4))),
         "sel": sel,
-        "element": draw(st.sampled_from(ELEMENTS)),
-        "idx_mode": draw(st.sampled_from(["some", "some", "scalar", "single", "all", "reversed"])),
+        "element": draw(sampled_from(ELEMENTS)),
+        "idx_mode": draw(sampled_from(["some", "some", "scalar", "single", "all", "reversed"])),
         "idx_seed": draw(st.integers(0, 10**6)),
-        "lon0": draw(st.sampled_from([-180.0, 170.0, 100.0, 0.0, -90.0]) | st.floats(-180, 180) | st.floats(120.0, 179.5) | st.floats(120.0, 179.5)),
+        "lon0": draw(sampled_from([-180.0, 170.0, 100.0, 0.0, -90.0]) | st.floats(-180, 180) | st.floats(120.0, 179.5) | st.floats(120.0, 179.5)),
         "lon_w": draw(st.floats(20.0, 300.0) | st.floats(5.0, 120.0)),
         "lat0": draw(st.floats(-85.0, 40.0)),
         "lat_h": draw(st.floats(20.0, 120.0)),
-        "center": [draw(st.sampled_from([180.0, -180.0, 0.0]) | st.floats(-180, 180)), draw(st.sampled_from([90.0, -90.0, 0.0]) | st.floats(-90, 90))],
+        "center": [draw(sampled_from([180.0, -180.0, 0.0]) | st.floats(-180, 180)), draw(sampled_from([90.0, -90.0, 0.0]) | st.floats(-90, 90))],
         "r": draw(st.floats(5.0, 100.0)),
         "k": draw(st.integers(1, 6)),
         "lat": draw(st.floats(-80.0, 80.0)),
-        "lat_from_node": draw(st.sampled_from([None, None, 0, 1, 2])),
-        "data": draw(st.sampled_from([None, "face", "face", "node", "edge"])),
+        "lat_from_node": draw(sampled_from([None, None, 0, 1, 2])),
+        "data": draw(sampled_from([None, "face", "face", "node", "edge"])),
         "lead": draw(st.lists(st.integers(1, 3), max_size=2)),
-        "threads": draw(st.sampled_from([1, 2, 4, 16])),
-        "via": draw(st.sampled_from(["grid", "uxda"])),
+        "threads": draw(sampled_from([1, 2, 4, 16])),
+        "via": draw(sampled_from(["grid", "uxda"])),
         # radius of the sphere the source's Cartesian coordinates lie on (MPAS: sphere_radius; topology arrays: node_x/y/z
         # supplied next to lon/lat); None = lon/lat only (topology) / unit sphere (MPAS)
-        "radius": draw(st.sampled_from([None, None, None, 2.5, 6371229.0])),
+        "radius": draw(sampled_from([None, None, None, 2.5, 6371229.0])),
     }
     if planted_box:
         case["planted"] = "small" if hi_ == 3.0 else "large"
         case["lon0"], case["lon_w"], case["lat0"], case["lat_h"] = planted_box
-        case["element"] = planted_element or draw(st.sampled_from(["nodes", "nodes", "edge centers", "face centers"]))
+        case["element"] = planted_element or draw(sampled_from(["nodes", "nodes", "edge centers", "face centers"]))
     return case
 
 
